@@ -19,50 +19,13 @@ mod sched_common;
 mod sched_gen;
 #[path = "../sched_vals.rs"]
 mod sched_vals;
-use abra_core::vm::verif_sched::{Event, StepKind};
 use sched_common::*;
 use sched_gen::*;
 use sched_vals::*;
-use std::collections::HashMap;
 use vh::*;
 
 fn host() -> impl FnMut(u16, &mut abra_core::vm::VmGreenThread, &mut String) -> Option<String> {
     prelude_host(&PRELUDE_HOSTS)
-}
-
-/// per channel: popped sequence must be a prefix of the pushed sequence
-fn fifo_violation(t: &Traced) -> Option<String> {
-    let mut pushed: HashMap<usize, Vec<(u64, u8)>> = HashMap::new();
-    let mut popped: HashMap<usize, Vec<(u64, u8)>> = HashMap::new();
-    for c in &t.calls {
-        for e in &c.events {
-            if let Event::Step { kind, .. } = e {
-                match kind {
-                    StepKind::Write(ch, bits, tag) => pushed.entry(*ch).or_default().push((*bits, *tag)),
-                    StepKind::ReadOk(ch, bits, tag) => {
-                        let p = popped.entry(*ch).or_default();
-                        p.push((*bits, *tag));
-                        let w = pushed.get(ch).map(|v| v.as_slice()).unwrap_or(&[]);
-                        if p.len() > w.len() || w[p.len() - 1] != (*bits, *tag) {
-                            return Some(format!(
-                                "read #{} of a channel popped {:?} but write #{} was {:?}",
-                                p.len(),
-                                (*bits, *tag),
-                                p.len(),
-                                w.get(p.len() - 1)
-                            ));
-                        }
-                    }
-                    _ => {}
-                }
-            }
-        }
-    }
-    None
-}
-
-fn n_blocked(t: &Traced) -> usize {
-    t.calls.iter().flat_map(|c| c.events.iter()).filter(|e| matches!(e, Event::Step { kind: StepKind::ReadBlocked(_), .. })).count()
 }
 
 struct Job {
@@ -152,6 +115,7 @@ fn gen_pc_job(rng: &mut Rng) -> Job {
 
 struct Res {
     rejected: Option<String>,
+    died: Option<String>,
     oracle: Option<(String, String, String)>,
     /// per schedule: (description, outcome tag, out, value, fifo violation, blocked reads, err text)
     runs: Vec<(String, String, String, String, Option<String>, usize, String)>,
@@ -162,6 +126,7 @@ const D23A: &str = "type Box = {\n  v: int\n  s: string\n}\nlet c: channel<Box> 
 const D23B: &str = "let c: channel<string> = channel()\nlet done: channel<bool> = channel()\ntask {\n  c.write(\"payload-\" .. 12345)\n  done.write(true)\n}\ndone.read()\nvar i = 0\nwhile i < 2000 {\n  let junk = \"x\" .. i\n  i = i + 1\n}\nprintln(c.read())\n";
 
 fn main() {
+    child_run_if_requested();
     let args: Vec<String> = std::env::args().collect();
     if args.get(1).map(|s| s.as_str()) == Some("--child-d23b") {
         // the writer has finished (its heap is freed) before the value is read: may abort the process
@@ -184,9 +149,9 @@ fn main() {
     for i in 0..n {
         jobs.push(gen_value_job(&mut ctx.rng, i));
         jobs.push(gen_pc_job(&mut ctx.rng));
-        if i % 3 == 0 {
+        if i % 2 == 0 {
             // shared and cyclic payloads (a channel read copies with a fresh map, fix 0cb8741)
-            let c = gen_alias_channel(&mut ctx.rng, i / 3);
+            let c = gen_alias_channel(&mut ctx.rng, i / 2);
             jobs.push(Job {
                 src: c.src,
                 class: format!("value:{}:graph", c.class.replace(':', "-")),
@@ -198,29 +163,43 @@ fn main() {
             });
         }
     }
-    let results = par_map(&jobs, |j| {
-        let mk = match compile_program(&j.src) {
-            Ok(mk) => mk,
-            Err(o) => return Res { rejected: Some(format!("{:?}", o)), oracle: None, runs: vec![], trace: None },
-        };
-        let oracle = j.oracle.as_ref().map(|src| {
-            let mut h = host();
-            let t = run_traced(src, &Schedule::constant(100_000), 2_000_000, &mut h);
-            (t.outcome.tag(), t.out, t.value)
-        });
-        let mut runs = vec![];
-        let mut trace = None;
-        for (k, s) in j.scheds.iter().enumerate() {
-            let mut h = host();
-            let t = run_traced_rt(&mk, s, 3_000_000, &mut h);
-            if k == 2 && t.total_steps <= 2500 && !matches!(t.outcome, Outcome::Crash(_)) {
-                let (req, ans) = trace_case(&t);
-                trace = Some((format!("{req} #{}", s.describe()), ans));
-            }
-            runs.push((s.describe(), t.outcome.tag(), t.out.clone(), t.value.clone(), fifo_violation(&t), n_blocked(&t), t.err_text.clone()));
-        }
-        Res { rejected: None, oracle, runs, trace }
-    });
+    // every program runs in a child process (batches of 8): a defect that aborts the process is
+    // attributed to the program that was running
+    let batches: Vec<&[Job]> = jobs.chunks(8).collect();
+    let results: Vec<Res> = par_map(&batches, |b| {
+        let cj: Vec<ChildJob> = b.iter().map(|j| ChildJob { src: &j.src, scheds: &j.scheds, trace_idx: Some(2) }).collect();
+        let rs = run_batch_in_child(&cj, 3_000_000);
+        b.iter()
+            .zip(rs)
+            .map(|(j, r)| match r {
+                ChildResult::Compile(tag, text) => Res { rejected: Some(format!("{tag}: {text}")), died: None, oracle: None, runs: vec![], trace: None },
+                ChildResult::Died(what, done, in_progress) => Res {
+                    rejected: None,
+                    died: Some(format!(
+                        "the host process died while running this program ({what}); schedule in progress: {}; completed runs before: {}",
+                        in_progress.unwrap_or_else(|| "teardown/after the last run".into()),
+                        done.len()
+                    )),
+                    oracle: None,
+                    runs: vec![],
+                    trace: None,
+                },
+                ChildResult::Runs(rs) => {
+                    let oracle = j.oracle.as_ref().map(|src| {
+                        let mut h = host();
+                        let t = run_traced(src, &Schedule::constant(100_000), 2_000_000, &mut h);
+                        (t.outcome.tag(), t.out, t.value)
+                    });
+                    let trace = rs.iter().find_map(|c| c.trace.clone()).map(|(req, ans)| (format!("{req} #{}", j.scheds[2].describe()), ans));
+                    let runs = rs.into_iter().map(|c| (c.desc, c.outcome, c.out, c.value, c.fifo, c.blocked_reads, c.err_text)).collect();
+                    Res { rejected: None, died: None, oracle, runs, trace }
+                }
+            })
+            .collect::<Vec<_>>()
+    })
+    .into_iter()
+    .flatten()
+    .collect();
     for (j, r) in jobs.iter().zip(results) {
         let cls: Vec<&str> = j.class.split(':').collect();
         ctx.count(&format!("class:{}:{}", cls[0], cls[1]));
@@ -229,6 +208,11 @@ fn main() {
             ctx.count("with-blocked-reader");
         }
         let prog = || j.src.replace(DECLS, "").replace(ALIAS_DECLS, "").replace(PC_PRELUDE, "").replace('\n', "\\n");
+        if let Some(d) = &r.died {
+            ctx.count("child-died");
+            ctx.spec_fail(format!("{d} :: {}", prog()));
+            continue;
+        }
         if let Some(e) = &r.rejected {
             ctx.count("rejected");
             if ctx.notes.len() < 5 {
